@@ -7,13 +7,13 @@
 From Irismod Require Import Genesis.Store.
 (** No free-standing invariant:
 
-    For record, coinswap, random, nft, mt and htlc the reachability invariant [invb] is DERIVED from the other groups'
+    For record, coinswap, random, nft, mt, htlc and token the reachability invariant [invb] is DERIVED from the other groups'
     message-level models ([Genesis/Link<Mod>.v]): an abstraction [abs] maps a state of that model to the
     genesis-level state (renaming ids by an injective numbering, sorting the stores the way the KV store
     iterates), and [reachable_<mod>] proves [invb (abs (run h)) = true] for every history [h] from that
     model's proved invariants (plus small extra invariants proved over its step function).  The C12
     statements then quantify over histories. *)
-From Irismod Require Genesis.LinkRecord Genesis.LinkCoinswap Genesis.LinkRandom Genesis.LinkNft Genesis.LinkMt Genesis.LinkHtlc.
+From Irismod Require Genesis.LinkRecord Genesis.LinkCoinswap Genesis.LinkRandom Genesis.LinkNft Genesis.LinkMt Genesis.LinkHtlc Genesis.LinkToken.
 
 Module LinkRecordC12.
 Import Genesis.LinkRecord.
@@ -202,4 +202,62 @@ Theorem htlc_history_prep :
   /\ G.import true (G.export (G.prep (M.st_height s) (abs_o rk hl rs oth s))) <> None.
 Proof. exact LinkHtlc.htlc_history_prep. Qed.
 Print Assumptions htlc_history_prep.
+
+(** KNOWN FINDING at the message level: with a parameter change in the history (the asset is deactivated under an
+    open incoming transfer; the model's SetParams accepts the set as Keeper.SetParams does) the export of the
+    abstraction validates and its import panics *)
+Theorem htlc_import_total_refuted_after_param_change :
+  let ops := [ M.Create (M.mkCreate 3 0 [(0, 200)] (8, 1700000000) 1700000000 50 true); M.SetParams M.GOV ex_P_inactive ] in
+  let s := MP.reachable ex_P ex_B (1700000000 * M.ns) ops in
+  M.params_valid ex_P_inactive = true /\ M.st_params s = ex_P_inactive
+  /\ length (G.g_htlcs (G.export (ex_abs s))) = 1%nat
+  /\ G.validate true (G.export (ex_abs s)) = true /\ G.import true (G.export (ex_abs s)) = None.
+Proof. exact LinkHtlc.htlc_history_param_change_refuted. Qed.
+Print Assumptions htlc_import_total_refuted_after_param_change.
 End LinkHtlcC12.
+
+(** ** token: [invb] derived from the message-level model of the token group ([Token/Model.v], [Token/Proofs.v]:
+    [IdInv]; [Token/Passes.v]: [WF]) plus the invariant [K] of [Genesis/LinkToken.v].  Histories: the harness
+    genesis (the native token, parameters that pass Params.Validate with the native symbol as fee denom), then
+    any C09 messages (issue, edit, mint, burn, ownership transfer, parameter update; no ERC20 messages, no
+    fee-token swap).  [rs] / [rm] number symbols / min units (injective on what the state holds), [ro] the
+    owners, [nlen] gives the length of an interned token name. *)
+Module LinkTokenC12.
+Import Genesis.LinkToken.
+
+Theorem reachable_token :
+  forall (rs rm : M.name -> Z) (ro : M.acct -> Z) (nlen : Z -> Z),
+  (forall n, 0 <= rm n) -> (forall a, 0 <= a -> 0 <= ro a) -> (forall nm, 0 <= nm -> 0 < nlen nm <= 32) ->
+  forall p balances ss reg (ms : list M.msg),
+  pars_good p -> M.p_fee_denom p = M.STAKE -> NoDup (keys balances) -> Forall MW.c09_msg ms ->
+  inj_on rs (map fst (M.tokens (M.run (M.genesis p balances ss reg) ms))) ->
+  inj_on rm (map fst (M.minunits (M.run (M.genesis p balances ss reg) ms))) ->
+  G.invb (abs rs rm ro nlen (M.run (M.genesis p balances ss reg) ms)) = true.
+Proof. exact LinkToken.reachable_token. Qed.
+Print Assumptions reachable_token.
+
+Theorem token_history_export_validates :
+  forall (rs rm : M.name -> Z) (ro : M.acct -> Z) (nlen : Z -> Z),
+  (forall n, 0 <= rm n) -> (forall a, 0 <= a -> 0 <= ro a) -> (forall nm, 0 <= nm -> 0 < nlen nm <= 32) ->
+  forall p balances ss reg (ms : list M.msg),
+  pars_good p -> M.p_fee_denom p = M.STAKE -> NoDup (keys balances) -> Forall MW.c09_msg ms ->
+  inj_on rs (map fst (M.tokens (M.run (M.genesis p balances ss reg) ms))) ->
+  inj_on rm (map fst (M.minunits (M.run (M.genesis p balances ss reg) ms))) ->
+  G.validate false (G.export (abs rs rm ro nlen (M.run (M.genesis p balances ss reg) ms))) = true.
+Proof. exact LinkToken.token_history_export_validates. Qed.
+Print Assumptions token_history_export_validates.
+
+(** import does not panic and gives back the state itself (so the second export is the first and every query
+    reads the same) *)
+Theorem token_history_roundtrip :
+  forall (rs rm : M.name -> Z) (ro : M.acct -> Z) (nlen : Z -> Z),
+  (forall n, 0 <= rm n) -> (forall a, 0 <= a -> 0 <= ro a) -> (forall nm, 0 <= nm -> 0 < nlen nm <= 32) ->
+  forall p balances ss reg (ms : list M.msg),
+  pars_good p -> M.p_fee_denom p = M.STAKE -> NoDup (keys balances) -> Forall MW.c09_msg ms ->
+  inj_on rs (map fst (M.tokens (M.run (M.genesis p balances ss reg) ms))) ->
+  inj_on rm (map fst (M.minunits (M.run (M.genesis p balances ss reg) ms))) ->
+  G.import false (G.export (abs rs rm ro nlen (M.run (M.genesis p balances ss reg) ms)))
+  = Some (abs rs rm ro nlen (M.run (M.genesis p balances ss reg) ms)).
+Proof. exact LinkToken.token_history_roundtrip. Qed.
+Print Assumptions token_history_roundtrip.
+End LinkTokenC12.
